@@ -255,14 +255,14 @@ PLAN["C08"] = {
             "maps), UnionDisjointStates (operands loaded with disjoint numbers), Intersection (with/without map), RemoveUnreachableStates, RemoveUselessStates (no useless state or rule left in the "
             "dump), copy/assign, GetTopDownAut are language-exact and leave the operands' languages unchanged. Histories (breadth-first search): 3 slots per encoding, menu of 159 operations: load of "
             "4 fixed automata (two pairs with overlapping state numbers), LoadFromString INTO a live automaton, copy, assign, destroy, Union, UnionDisjointStates (only when the reference says the "
-            "state sets are disjoint), Intersection, RemoveUnreachableStates, RemoveUselessStates (results may overwrite an operand), GetTopDownAut, SetStateFinal, AddTransition (leaf and binary rule); searched from the empty world and from two seeded non-initial states in which two handles already share one transition table; in every state the dump of every live slot "
+            "state sets are disjoint), Intersection, RemoveUnreachableStates, RemoveUselessStates (results may overwrite an operand), GetTopDownAut, SetStateFinal, AddTransition (leaf and binary rule); searched from the empty world, from a third seeded state s0=load(M4); s1=copy(s0) with a nondeterministic operand WITHOUT final states (so that the copies can be given different final states: SetStateFinal of either state of either numbering is in the menu) and from two seeded non-initial states in which two handles already share one transition table; in every state the dump of every live slot "
             "must denote the language of the slot's reference value; the state key contains final states, the identity of every transition table and the FULL content of every distinct table "
             "(tuple/state -> MTBDD paths, read with -fno-access-control), so junk left in a shared table is part of the state",
     "assumptions": HIST_ASSUMPTIONS + ["the process-wide symbolic alphabet is pre-registered in a fixed order (a, b, g) once per worker so that symbol codes, and with them the state keys, do not depend on earlier cases"],
     "claim": "All operation histories up to the stated depth over BDD automata that share transition tables, plus exhaustive single calls over the finite domains.",
     "technique": "explicit-state breadth-first search over operation histories of BDD automata sharing transition tables + bounded exhaustive enumeration of single calls",
-    "quick": [("rel", "c08.single.n2s2k3"), ("rel", "c08.single.n3s3pk3"), ("rel", "c08.single.ov.n2k4"), ("rel", "c08.pairs.n2s2k2"), ("rel", "c08.pairs.ov.trim.n2k3"), ("rel", "c08.pairs.trim.n3s3pk3"), ("rel", "c08.hist.bu.d4"), ("rel", "c08.hist.td.d4"), ("rel", "c08.hist.bu.seeded1.d3"), ("rel", "c08.hist.td.seeded1.d3"), ("rel", "c08.hist.bu.seeded2.d3")],
-    "thorough": [("rel", "c08.single.n2s3k4"), ("rel", "c08.single.n3s3pk3"), ("rel", "c08.pairs.n2s2k3"), ("rel", "c08.pairs.n2s3k2"), ("rel", "c08.pairs.trim.n3s3pk3"), ("rel", "c08.pairs.trim.n3abfk3"), ("rel", "c08.single.n4abfk4"), ("rel", "c08.single.ov.n2k4"), ("rel", "c08.pairs.ov.n2k3"), ("rel", "c08.pairs.ov1.n2k2"), ("rel", "c08.hist.bu.d5"), ("rel", "c08.hist.td.d5"), ("rel", "c08.hist.bu.seeded1.d4"), ("rel", "c08.hist.td.seeded1.d4"), ("rel", "c08.hist.bu.seeded2.d4"), ("rel", "c08.hist.td.seeded2.d3"), ("asan", "c08.hist.bu.d3"), ("asan", "c08.hist.td.d3"), ("asan", "c08.hist.bu.seeded1.d3")],
+    "quick": [("rel", "c08.single.n2s2k3"), ("rel", "c08.single.n3s3pk3"), ("rel", "c08.single.ov.n2k4"), ("rel", "c08.pairs.n2s2k2"), ("rel", "c08.pairs.ov.trim.n2k3"), ("rel", "c08.pairs.trim.n3s3pk3"), ("rel", "c08.hist.bu.d4"), ("rel", "c08.hist.td.d4"), ("rel", "c08.hist.bu.seeded1.d3"), ("rel", "c08.hist.td.seeded1.d3"), ("rel", "c08.hist.bu.seeded2.d3"), ("rel", "c08.hist.bu.seeded3.d3"), ("rel", "c08.hist.td.seeded3.d3")],
+    "thorough": [("rel", "c08.single.n2s3k4"), ("rel", "c08.single.n3s3pk3"), ("rel", "c08.pairs.n2s2k3"), ("rel", "c08.pairs.n2s3k2"), ("rel", "c08.pairs.trim.n3s3pk3"), ("rel", "c08.pairs.trim.n3abfk3"), ("rel", "c08.single.n4abfk4"), ("rel", "c08.single.ov.n2k4"), ("rel", "c08.pairs.ov.n2k3"), ("rel", "c08.pairs.ov1.n2k2"), ("rel", "c08.hist.bu.d5"), ("rel", "c08.hist.td.d5"), ("rel", "c08.hist.bu.seeded1.d4"), ("rel", "c08.hist.td.seeded1.d4"), ("rel", "c08.hist.bu.seeded2.d4"), ("rel", "c08.hist.td.seeded2.d3"), ("rel", "c08.hist.bu.seeded3.d4"), ("rel", "c08.hist.td.seeded3.d4"), ("asan", "c08.hist.bu.d3"), ("asan", "c08.hist.td.d3"), ("asan", "c08.hist.bu.seeded1.d3")],
     "require": {"all": ["transitions_into_sharing_states", "intersection_nonempty", "class_useless_states", "lang_nonempty"]},
 }
 
